@@ -130,6 +130,16 @@ func deepEq(a, b reflect.Value, path string, relax bool, seen map[visit]bool, de
 		for it.Next() {
 			bv := b.MapIndex(it.Key())
 			if !bv.IsValid() {
+				// keys that contain pointers are equal by identity only: match them by content
+				bit := b.MapRange()
+				for bit.Next() {
+					if deepEq(it.Key(), bit.Key(), path, relax, seen, depth+1) == "" {
+						bv = bit.Value()
+						break
+					}
+				}
+			}
+			if !bv.IsValid() {
 				return fmt.Sprintf("%s: key %v missing on the right", path, it.Key())
 			}
 			if d := deepEq(it.Value(), bv, fmt.Sprintf("%s[%v]", path, it.Key()), relax, seen, depth+1); d != "" {
